@@ -210,6 +210,33 @@ static void run_case(int k)
     }
     if (Hclose(fid) == FAIL) hk_fail("comp-close", "%s", cname);
 
+    /* reopen read/write and only READ through a handle that has write access (what SDreaddata does on a file opened DFACC_RDWR):
+       one read that stops anywhere - inside a run, inside a literal packet, at the end -, optionally after a seek, then Hendaccess.
+       Nothing was written, so nothing may change (C05: returns exactly the stream written; C14: no change requested) */
+    if (curn > 0 && hk_chance(60)) {
+        fid = Hopen(path, DFACC_RDWR, 0);
+        if (fid == FAIL) { hk_fail("comp-reopen", "%s rdwr", cname); return; }
+        int32 a3 = Hstartaccess(fid, tag, ref, DFACC_RDWR);
+        if (a3 == FAIL) hk_fail("comp-startaccess-rdwr", "%s n=%d", cname, curn);
+        else {
+            int from = hk_chance(50) ? 0 : (int)hk_range(0, curn - 1);
+            int want = (int)hk_range(1, curn - from);
+            if (from > 0 && Hseek(a3, from, DF_START) == FAIL) hk_fail("comp-seek", "%s rdwr seek %d of %d", cname, from, curn);
+            else {
+                int32 r = Hread(a3, want, rbuf);
+                if (r != want || memcmp(rbuf, cur + from, (size_t)want) != 0) hk_fail("comp-read-data", "%s rdwr handle read@%d len %d of %d r=%d", cname, from, want, curn, (int)r);
+            }
+            if (Hendaccess(a3) == FAIL) hk_fail("comp-endaccess", "%s rdwr reader", cname);
+            hk_stat("rdwr_partial_reads", 1);
+        }
+        if (Hclose(fid) == FAIL) hk_fail("comp-close", "%s after rdwr read", cname);
+        fid = Hopen(path, DFACC_READ, 0);
+        if (fid == FAIL) { hk_fail("comp-reopen", "%s", cname); return; }
+        { int32 g = Hgetelement(fid, tag, ref, rbuf);
+          if (g != curn || memcmp(rbuf, cur, (size_t)curn) != 0) hk_fail("comp-read-only-session-changed-data", "%s: after a read through a write-access handle and Hendaccess the element differs (g=%d n=%d)", cname, (int)g, curn); }
+        Hclose(fid);
+    }
+
     /* reopen read-only */
     fid = Hopen(path, DFACC_READ, 0);
     if (fid == FAIL) { hk_fail("comp-reopen", "%s", cname); return; }
